@@ -221,22 +221,28 @@ def sortDatasets {α} (items : List (List Rat × α)) (ori : List Rat) (conv : L
   let idx ← planeSortIndex (items.map (·.1)) ori conv rightHanded
   pure (idx.filterMap fun i => (items[i]?).map (·.2))
 
+/-- `[series[vol_positions.index(i)] for i in range(len(series))]` -/
+def seriesOrder {α} (items : List α) (vp : List Int) : Except ErrKind (List α) :=
+  (List.range items.length).mapM fun (i : Nat) =>
+    match vp.idxOf? (Int.ofNat i) with
+    | some k => (match items[k]? with | some it => .ok it | none => .error .index : Except ErrKind α)
+    | none => .error .value      -- list.index raises ValueError
+
 /-- `get_volume_from_series` (geometry and frame order): slice `i` of the volume is the dataset whose volume
 index is `i`; the volume's position is that of slice 0. -/
 def assembleSeries {α} (items : List (List Rat × α)) (ori : List Rat) (rtol atol : Option Rat) :
     Except ErrKind (Rat × List Rat × List α) := do
-  match items with
-  | [] => .error .index
-  | [x] => pure (1, x.1, [x.2])
-  | _ => do
+  if items.length = 0 then .error .index
+  else if items.length = 1 then
+    match items with
+    | x :: _ => pure (1, x.1, [x.2])
+    | [] => .error .index
+  else do
     let r ← getVolumePositions (items.map (·.1)) ori { rtol := rtol, atol := atol }
     match r with
     | none => .error .value
-    | some (sp, vp) =>
-      let order ← (List.range items.length).mapM fun (i : Nat) =>
-        match vp.idxOf? (i : Int) with
-        | some k => (match items[k]? with | some it => pure it | none => .error .index : Except ErrKind (List Rat × α))
-        | none => .error .value      -- list.index raises ValueError
+    | some (sp, vp) => do
+      let order ← seriesOrder items vp
       match order with
       | first :: _ => pure (sp, first.1, order.map (·.2))
       | [] => .error .index
